@@ -40,7 +40,10 @@ def cases(tier, seed):
         spec = gen.make_spec(rng, D=D, geom=str(rng.choice(["lin", "tight", "log", "unb", "offcentre"], p=[0.3, 0.3, 0.15, 0.1, 0.15])),
                              x0mode=str(rng.choice(["in", "none", "onlb"], p=[0.6, 0.2, 0.2])),
                              land=str(rng.choice(["quad", "sphere", "l1", "rosen", "stair", "bowl4"])), where=str(rng.choice(["in", "onb", "out"], p=[0.5, 0.3, 0.2])),
-                             mode=mode, options=opts, max_fun_evals=int(rng.choice([60, 100, 150, 200])))
+                             mode=mode, options=opts, max_fun_evals=int(rng.choice([60, 100, 150, 200])),
+                             # supplied SDs of extreme small magnitude (objective in tiny units): the variance handed to the
+                             # GP must still be the logged SD squared (1e-20 is not "about machine epsilon")
+                             sigma=(float(rng.choice([1e-10, 1e-9, 3e-9])) if (mode == "he" and rng.random() < 0.3) else None))
         case = {"spec": spec}
         if rng.random() < 0.3:
             # stimulate the retry paths of the robust refit: 2-3 consecutive LinAlgErrors at some fit
